@@ -19,6 +19,9 @@ def engine_for(prop):
     import engine_sol
     if prop in engine_sol.CONFIG:
         return engine_sol
+    import engine_cfg
+    if prop in engine_cfg.CONFIG:
+        return engine_cfg
     raise SystemExit('no check registered for ' + prop)
 
 
